@@ -21,7 +21,7 @@ THEOREMS = [
      "forall v1 v2 n1 n2, is_bytes n1 -> is_bytes n2 -> "
      "role_filename true v1 n1 = role_filename true v2 n2 -> n1 = n2 /\\ v1 = v2"),
     ("C16_file_url_opens_entry",
-     "forall base cs v name, forallb (fun c => negb (is_empty c)) base = true -> is_bytes name -> "
+     "forall base cs v name, base <> [] -> forallb (fun c => negb (is_empty c)) base = true -> is_bytes name -> "
      "url_plain (role_filename cs v name) = true "
      "/\\ url_join base (role_filename cs v name) = UPath (base ++ [role_filename cs v name]) false"),
 ]
